@@ -4,6 +4,7 @@
 //@kani harness=from_le_bytes_is_u16_of kind=complete
 //@kani harness=decode_utf16_one_step kind=complete
 //@kani harness=nom_le_readers_are_le kind=complete unwind=6
+//@kani harness=u64_and_i16_le kind=complete unwind=10
 // K-CODEC (C05): the std / nom primitives behind the ASSUMED wrapper contracts of specs/codec_wr.rs.inc, codec_rd.rs.inc and v_utf16,
 // checked on the compiled code over their FULL domain (every char, every u16 / u32 / i16, every pair of code units, every four
 // bytes).  Each harness is loop-free except nom's fixed-width byte loop (unwinding assertions on): complete, not bounded.
@@ -96,4 +97,31 @@
         let short: SudachiNomResult<&[u8], u32> = nom::number::complete::le_u32(&data[..3]);
         match short { Ok(_) => assert!(false), Err(e) => { std::mem::forget(e); } }
         kani::cover!(want32 == 0x80000001);
+    }
+    #[kani::proof]
+    #[kani::unwind(10)]
+    fn u64_and_i16_le() {
+        // header fields (u64) and matrix dimensions / cells (i16): writer side to_le_bytes, reader side nom le_u64 / le_i16
+        let v: u64 = kani::any();
+        let b = v.to_le_bytes();
+        assert!(b[0] == (v & 0xff) as u8 && b[1] == ((v >> 8) & 0xff) as u8 && b[2] == ((v >> 16) & 0xff) as u8 && b[3] == ((v >> 24) & 0xff) as u8
+            && b[4] == ((v >> 32) & 0xff) as u8 && b[5] == ((v >> 40) & 0xff) as u8 && b[6] == ((v >> 48) & 0xff) as u8 && b[7] == (v >> 56) as u8);
+        let data: [u8; 8] = kani::any();
+        let want64 = (data[0] as u64) | ((data[1] as u64) << 8) | ((data[2] as u64) << 16) | ((data[3] as u64) << 24)
+            | ((data[4] as u64) << 32) | ((data[5] as u64) << 40) | ((data[6] as u64) << 48) | ((data[7] as u64) << 56);
+        let r64: SudachiNomResult<&[u8], u64> = nom::number::complete::le_u64(&data[..]);
+        match r64 {
+            Ok((rest, x)) => { assert!(x == want64); assert!(rest.len() == 0); }
+            Err(e) => { std::mem::forget(e); assert!(false); }
+        }
+        let r16: SudachiNomResult<&[u8], i16> = nom::number::complete::le_i16(&data[..]);
+        match r16 {
+            Ok((rest, x)) => { assert!(x == ((data[0] as u16) | ((data[1] as u16) << 8)) as i16); assert!(rest.len() == 6); }
+            Err(e) => { std::mem::forget(e); assert!(false); }
+        }
+        let w: i16 = kani::any();
+        let c = w.to_le_bytes();
+        assert!(c[0] == ((w as u16) & 0xff) as u8 && c[1] == ((w as u16) >> 8) as u8);
+        kani::cover!(w == -1);
+        kani::cover!(want64 == 0x8000_0000_0000_0001);
     }
